@@ -12,7 +12,7 @@ import (
 // Re-entrant calls: script code that runs while the arguments of a bridged call
 // are being converted (toString of an object given for a string parameter, a
 // getter read while a map / struct parameter is built, the length getter of an
-// array-like for a slice parameter) calls bridged functions itself -- the same
+// array-like given for a slice parameter -- read before the object is refused as no list) calls bridged functions itself -- the same
 // one or another.  Every parameter carries one integer: the number, the id k
 // of the string "sk", the value under key a / in field A, the slice length.
 
@@ -62,11 +62,16 @@ func (g *gen) randRCall(depth int, prefer int) rcall {
 
 func (c rcall) coq() string {
 	var as []string
-	for _, a := range c.args {
+	for ai, a := range c.args {
 		if a.re {
 			var in []string
 			for _, i := range a.inner {
 				in = append(in, i.coq())
+			}
+			if rFuncs[c.f][ai] == 4 {
+				// an object that only has a length getter is no list: the getter runs, then the conversion fails (TypeError)
+				as = append(as, fmt.Sprintf("RReFail %s", Clist(in)))
+				continue
 			}
 			as = append(as, fmt.Sprintf("RRe %s %d", Clist(in), a.v))
 		} else {
